@@ -80,9 +80,12 @@ pub fn filter_by_git_diff(
         git_diff.get_changed_files_range(&range.base, &range.target)?
     };
 
-    // Canonicalize paths for comparison
+    // Canonicalize paths for comparison. A changed path that is a symbolic link in the work
+    // tree (the compared commits need not be the checked-out one) is not a regular file and
+    // must not resolve to its target.
     let changed_canonical: HashSet<_> = changed_files
         .iter()
+        .filter(|p| p.symlink_metadata().is_ok_and(|m| m.is_file()))
         .filter_map(|p| p.canonicalize().ok())
         .collect();
 
